@@ -22,7 +22,7 @@ func init() {
 			"(R3) observer registration sets each guard flag together with the mask bits, routes observed components of entity events into the with-mask, computes the exclusive mask after all with-bits and folds the observer's own masks into the aggregates; " +
 			"(R4) removing an observer unconditionally recomputes all aggregates of its event from the remaining observers; (R5) no function callable from a callback stores into elements of a per-event observer slice in place, neither directly nor through a local that on some path is (a re-slice of) such a slice; " +
 			"(R6) all callers of an internal operation that leaves emission to its caller fire the same events under the same guards; (R7) the relation change-mask bit is set exactly on the path that records a changed target. " +
-			"(R8 = C04/R11) a change mask that is filled and recorded per table is fresh for every table. Not decided: exactly-once counts over batches; mask bit arithmetic.",
+			"(R8 = C04/R11) a change mask that is filled and recorded per table is fresh for every table; (R9 = C06/R10) what a loop over a batch's per-table plan records hands to the observers is the table's own (a record field or a value of that iteration), never a variable that the planning loop overwrote or accumulated for every table. Not decided: exactly-once counts over batches; mask bit arithmetic.",
 		TrustedBase: []string{"go/types", "frozen semantics table per event family (from the documentation)", "four-entry aggregate lifting table (two-line set arguments)"},
 		Rules: []Rule{
 			{ID: "C08/R1+R2", Run: c08r1r2, Min: 1},
@@ -32,6 +32,7 @@ func init() {
 			{ID: "C08/R6", Run: c08r6, Min: 1},
 			{ID: "C08/R7", Run: c08r7, Min: 1},
 			{ID: "C04/R11", Run: c04r11, Min: 1},
+			{ID: "C06/R10", Run: c06r10, Min: 8},
 		},
 	})
 }
